@@ -74,6 +74,8 @@ def make_settings(cfg):
                   smoothing=dict(operator=cfg["op"], bandwidth=cfg["b"],
                                  center_frequencies_in_hz=np.array(cfg["fcs"], copy=True)),
                   fft_settings=None if cfg["user_n"] is None else dict(n=int(cfg["user_n"])))
+    if cfg.get("policy"):
+        common["handle_dissimilar_time_steps_by"] = cfg["policy"]
     k = cfg["kind"]
     if k == "freq":
         return hvsrpy.HvsrTraditionalProcessingSettings(method_to_combine_horizontals=cfg["method"], **common)
